@@ -752,11 +752,13 @@ func (obj *SparseReal32Matrix) JointIterator(b ConstMatrix) MatrixJointIterator 
 }
 func (obj *SparseReal32Matrix) ITERATOR() *SparseReal32MatrixIterator {
   r := SparseReal32MatrixIterator{*obj.values.ITERATOR(), obj}
+  r.skipOutside()
   return &r
 }
 func (obj *SparseReal32Matrix) ITERATOR_FROM(i, j int) *SparseReal32MatrixIterator {
   k := obj.index(i, j)
   r := SparseReal32MatrixIterator{*obj.values.ITERATOR_FROM(k), obj}
+  r.skipOutside()
   return &r
 }
 func (obj *SparseReal32Matrix) JOINT_ITERATOR(b ConstMatrix) *SparseReal32MatrixJointIterator {
@@ -777,6 +779,20 @@ type SparseReal32MatrixIterator struct {
 }
 func (obj *SparseReal32MatrixIterator) Index() (int, int) {
   return obj.m.ij(obj.SparseReal32VectorIterator.Index())
+}
+func (obj *SparseReal32MatrixIterator) Next() {
+  obj.SparseReal32VectorIterator.Next()
+  obj.skipOutside()
+}
+// the underlying vector also holds the entries of the parent matrix that lie
+// outside a sub-matrix view: skip them
+func (obj *SparseReal32MatrixIterator) skipOutside() {
+  for obj.SparseReal32VectorIterator.Ok() {
+    if i, j := obj.Index(); i >= 0 && i < obj.m.rows && j >= 0 && j < obj.m.cols {
+      return
+    }
+    obj.SparseReal32VectorIterator.Next()
+  }
 }
 func (obj *SparseReal32MatrixIterator) Clone() *SparseReal32MatrixIterator {
   return &SparseReal32MatrixIterator{*obj.SparseReal32VectorIterator.Clone(), obj.m}
